@@ -97,3 +97,45 @@ impl Args {
         self.0.first().cloned().unwrap_or_default()
     }
 }
+
+/// Watchdog for hangs of the code under test: the driver kicks it after every step; if no kick arrives
+/// for `secs` seconds the watchdog appends a Hang event to the trace file, prints a summary line and
+/// exits the process with status 0 (a hang is data for the checks, not a tool error).
+pub struct Watchdog {
+    last: std::sync::Arc<std::sync::atomic::AtomicU64>,
+    info: std::sync::Arc<std::sync::Mutex<String>>,
+}
+
+fn now_ms() -> u64 {
+    std::time::SystemTime::now().duration_since(std::time::UNIX_EPOCH).unwrap().as_millis() as u64
+}
+
+impl Watchdog {
+    pub fn start(secs: u64, trace_path: &str) -> Watchdog {
+        use std::sync::atomic::Ordering;
+        let last = std::sync::Arc::new(std::sync::atomic::AtomicU64::new(now_ms()));
+        let info = std::sync::Arc::new(std::sync::Mutex::new(String::new()));
+        let (l2, i2, path) = (last.clone(), info.clone(), trace_path.to_string());
+        std::thread::spawn(move || loop {
+            std::thread::sleep(std::time::Duration::from_millis(200));
+            if now_ms().saturating_sub(l2.load(Ordering::Relaxed)) > secs * 1000 {
+                let what = i2.lock().map(|s| s.clone()).unwrap_or_default();
+                if let Ok(mut f) = std::fs::OpenOptions::new().append(true).open(&path) {
+                    let ev = serde_json::json!({"ev": "Hang", "msg": format!("no progress for {secs} s"), "during": what});
+                    let _ = writeln!(f, "{}", ev);
+                }
+                println!("{}", serde_json::json!({"hung": 1, "during": what}));
+                std::process::exit(0);
+            }
+        });
+        Watchdog { last, info }
+    }
+    /// progress: the step named `next` is about to start
+    pub fn kick(&self, next: &str) {
+        self.last.store(now_ms(), std::sync::atomic::Ordering::Relaxed);
+        if let Ok(mut s) = self.info.lock() {
+            s.clear();
+            s.push_str(next);
+        }
+    }
+}
